@@ -41,7 +41,7 @@ TIERS = {
 PROBES = ["pending_then_resolved", "premature_use", "other_module_used_first", "cyclic_program", "same_target_twice", "future_annotations",
           "whole_quoted", "local_class", "schema_generated", "constrained_ref", "self_spelling", "acyclic_direct_twin",
           "local_name_collides_with_module", "same_target_three_times", "function_partially_resolvable", "generator_types_by_reference",
-          "subclass_used", "property_output_by_reference", "local_sibling_reference"]
+          "subclass_used", "property_output_by_reference", "local_sibling_reference", "class_nested_in_class_body"]
 
 CONTAINERS = ["opt", "list", "dict", "union", "req"]
 
@@ -89,6 +89,12 @@ def class_source(prog, ci, S, direct=False):
         sp = "direct" if direct else c["disc"]["spell"]
         t_ = f"Union[{a_}, {b_}]" if sp in ("direct", "future") else repr(f"Union[{a_}, {b_}]") if sp == "whole" else f"Union[{a_!r}, {b_!r}]"
         L.append(f"    dsc: {t_} = Field(discriminator='kind', default=None)")
+    if c.get("pair"):
+        # one generic with two reference-bearing arguments
+        a_, b_ = f"C{c['pair']['a']}{S}", f"C{c['pair']['b']}{S}"
+        sp = "direct" if direct else c["pair"]["spell"]
+        t_ = f"Tuple[{a_}, List[{b_}]]" if sp in ("direct", "future") else repr(f"Tuple[{a_}, List[{b_}]]") if sp == "whole" else f"Tuple[{a_!r}, List[{b_!r}]]"
+        L.append(f"    pr: {t_} = Field(default=None)")
     for fi, r in enumerate(c["refs"]):
         tgt = f"C{r['to']}{S}"
         sp = "direct" if direct else r["spell"]
@@ -119,7 +125,7 @@ def class_source(prog, ci, S, direct=False):
 
 
 HEADER = ("from utype import Schema, DataClass, Field, Options, Rule\nimport utype\n"
-          "from typing import List, Dict, Optional, Union, Iterator, Generator, Literal\nfrom utype.utils.compat import Self\n")
+          "from typing import List, Dict, Optional, Union, Iterator, Generator, Literal, Tuple\nfrom utype.utils.compat import Self\n")
 
 
 def alias_source(S):
@@ -163,6 +169,12 @@ def fnr_source(prog, S, direct=False):
     c = prog["fnr"]["to"]
     q = f"C{c}{S}" if direct else repr(f"C{c}{S}")
     return f"@utype.parse(ignore_params=True)\ndef fnr{S}(k=7) -> {q}:\n    return {{'v': k}}\n"
+
+
+def nested_source(S, cont2):
+    """A self-referencing class declared in the body of another class (not function-local: qualname Outer.Loc)."""
+    return (f"class Outer{S}:\n    class Loc(Schema):\n        v: int = 0\n        r0: Optional['Loc'] = None\n"
+            f"        r1: {ann(cont2, repr('Loc'), True)}{default_for(cont2)}\n\ndef make{S}():\n    return Outer{S}.Loc\n")
 
 
 def local_source(S, cont2, collide=False, sibling=None):
@@ -226,6 +238,15 @@ def model_class(prog, ci, data, depth=0):
             if not isinstance(x, dict) or x.get("kind") not in which:
                 raise Reject()
             out.append(["dsc", model_class(prog, which[x["kind"]], x, depth + 1)])
+    if c.get("pair"):
+        x = data.get("pr")
+        if x is None:
+            out.append(["pr", None])
+        else:
+            if not isinstance(x, list) or len(x) != 2 or not isinstance(x[1], list):
+                raise Reject()
+            out.append(["pr", ["tuple", [model_class(prog, c["pair"]["a"], x[0], depth + 1),
+                                         ["list", [model_class(prog, c["pair"]["b"], y, depth + 1) for y in x[1]]]]]])
     for fi, r in enumerate(c["refs"]):
         key = f"r{fi}"
         cont = r["cont"]
@@ -375,6 +396,9 @@ def gen_input(rng, prog, ci, depth, bad):
         x = dict(gen_input(rng, prog, t_, depth + 2, bad))
         x["kind"] = f"c{t_}" if rng.random() < 0.9 else "zz"
         d["dsc"] = x
+    if c.get("pair") and depth < 3 and rng.random() < 0.7:
+        one = lambda t_: dict(gen_input(rng, prog, t_, depth + 2, bad))  # noqa
+        d["pr"] = [one(c["pair"]["a"]), [one(c["pair"]["b"]) for _ in range(rng.choice([1, 1, 2]))]]
     if c.get("addn") and depth < 3:
         for j in range(rng.choice([0, 1, 1, 2])):
             one = lambda: dict(gen_input(rng, prog, c["addn"]["to"], depth + 2, bad))  # noqa
@@ -394,6 +418,7 @@ def is_cyclic(prog):
     adj = {i: {r["to"] for r in prog["classes"][i]["refs"]} | ({prog["classes"][i]["pprop"]} if prog["classes"][i].get("pprop") is not None else set())
            | ({prog["classes"][i]["addn"]["to"]} if prog["classes"][i].get("addn") else set())
            | ({prog["classes"][i]["disc"]["a"], prog["classes"][i]["disc"]["b"]} if prog["classes"][i].get("disc") else set())
+           | ({prog["classes"][i]["pair"]["a"], prog["classes"][i]["pair"]["b"]} if prog["classes"][i].get("pair") else set())
            for i in range(n)}
     seen, stack = set(), set()
 
@@ -422,9 +447,10 @@ def topo(prog):
             visit(prog["classes"][u]["pprop"])
         if prog["classes"][u].get("addn"):
             visit(prog["classes"][u]["addn"]["to"])
-        if prog["classes"][u].get("disc"):
-            visit(prog["classes"][u]["disc"]["a"])
-            visit(prog["classes"][u]["disc"]["b"])
+        for feat in ("disc", "pair"):
+            if prog["classes"][u].get(feat):
+                visit(prog["classes"][u][feat]["a"])
+                visit(prog["classes"][u][feat]["b"])
         order.append(u)
     for i in range(n):
         visit(i)
@@ -437,7 +463,10 @@ def generate(rng, tier):
         plan = {"prop": ID, "kind": "local", "cont2": rng.choice(["list", "dict", "opt", "union"]),
                 "collide": rng.random() < 0.4, "events": []}
         prog = {"classes": [{"refs": [{"to": 0, "cont": "opt", "spell": "str"}, {"to": 0, "cont": plan["cont2"], "spell": "str"}]}]}
-        if rng.random() < 0.3:
+        if rng.random() < 0.2:
+            plan["nested_in_class"] = True
+            plan["collide"] = False
+        elif rng.random() < 0.3:
             plan["sibling"] = rng.choice(["before", "after"])
             prog["classes"][0]["refs"].append({"to": 1, "cont": "opt", "spell": "str"})
             prog["classes"].append({"refs": []})
@@ -522,6 +551,11 @@ def generate(rng, tier):
         if a_ in no_req and b_ in no_req:
             prog["kinds"] = True
             classes[ci]["disc"] = {"a": a_, "b": b_, "spell": "future" if future else rng.choice(["str", "str", "whole"])}
+    if n >= 2 and rng.random() < 0.15:
+        ci = 0 if dag else rng.randrange(n)
+        cands = [x for x in no_req if (x > ci if dag else True)]
+        if cands:
+            classes[ci]["pair"] = {"a": rng.choice(cands), "b": rng.choice(cands), "spell": "future" if future else rng.choice(["str", "str", "whole"])}
     plan = {"prop": ID, "kind": "module", "prog": prog, "order": order}
     # events: defines in `order` (alias and function somewhere), uses interleaved
     ev = [{"ev": "define", "cls": c} for c in order]
@@ -604,9 +638,10 @@ def _needs(prog, ci, seen=None):
         _needs(prog, prog["classes"][ci]["pprop"], seen)
     if prog["classes"][ci].get("addn"):
         _needs(prog, prog["classes"][ci]["addn"]["to"], seen)
-    if prog["classes"][ci].get("disc"):
-        _needs(prog, prog["classes"][ci]["disc"]["a"], seen)
-        _needs(prog, prog["classes"][ci]["disc"]["b"], seen)
+    for feat in ("disc", "pair"):
+        if prog["classes"][ci].get(feat):
+            _needs(prog, prog["classes"][ci][feat]["a"], seen)
+            _needs(prog, prog["classes"][ci][feat]["b"], seen)
     return seen
 
 
@@ -687,7 +722,10 @@ def execute(plan):
     prog = plan["prog"]
     S = "__" + kernel.new_suffix()
     if plan["kind"] == "local":
-        mod = kernel.make_module("verif_c17_loc_" + S.strip("_"), HEADER + local_source(S, plan["cont2"], plan.get("collide"), plan.get("sibling")))
+        mod = kernel.make_module("verif_c17_loc_" + S.strip("_"), HEADER + (nested_source(S, plan["cont2"]) if plan.get("nested_in_class") else
+                                                                            local_source(S, plan["cont2"], plan.get("collide"), plan.get("sibling"))))
+        if plan.get("nested_in_class"):
+            res.stats["probe:class_nested_in_class_body"] += 1
         if plan.get("sibling"):
             res.stats["probe:local_sibling_reference"] += 1
         if plan.get("collide"):
@@ -717,7 +755,7 @@ def execute(plan):
                 kd = _kind(got, want)
                 if plan.get("sibling") and got[:2] == ["exc", "NameError"]:
                     kd = "NameError"      # (one fingerprint whatever the input: the first parse fails before it looks at it)
-                res.violate(f"C17|local|{'sibling_' + plan['sibling'] if plan.get('sibling') else plan['cont2']}|{kd}",
+                res.violate(f"C17|{'nested' if plan.get('nested_in_class') else 'local'}|{'sibling_' + plan['sibling'] if plan.get('sibling') else plan['cont2']}|{kd}",
                             f"event #{n} use of the function-local class with {e['data']} gave {kernel.jdump(got)[:200]}, expected {kernel.jdump(want)[:200]}")
                 break
             res.nontrivial = True
